@@ -89,7 +89,22 @@ def gen_uri(rng):
 
 def variant(rng, a):
 	"""an equivalent or near-equivalent textual form"""
-	r = rng.randrange(5)
+	r = rng.randrange(8)
+	if r == 5:
+		# climb above the root right after the authority: "/../x" is "/x"
+		i = a.find(u'/', a.find(u'://') + 3)
+		return a + u'/..' if i < 0 else a[:i] + rng.choice([u'/..', u'/../..', u'/.', u'/x/../..']) + a[i:]
+	if r == 6:
+		# the text of the normalised URI
+		try:
+			from httoop.uri import URI
+			u = URI(a.encode())
+			u.normalize()
+			return bytes(u).decode()
+		except Exception:
+			return a
+	if r == 7:
+		return a.replace(u'example.com', u'Example.COM').replace(u'://a', u'://A')
 	if r == 0:
 		return a.replace(u'example', u'EXAMPLE').replace(u'http', u'HTTP')
 	if r == 1:
